@@ -190,12 +190,19 @@ func ferun(c *Ctx) {
 		lines = 80
 	}
 	for pi := 0; pi < nproj; pi++ {
-		g := &proj.Gen{R: r, BadSigs: r.Chance(1, 2), Imports: true, TagShapes: r.Chance(1, 3)}
+		g := &proj.Gen{R: r, BadSigs: r.Chance(1, 2), Imports: true, TagShapes: r.Chance(1, 3), Platform: pi%2 == 1 || r.Chance(1, 3)}
 		p := g.Generate(1000 + pi)
 		dir := filepath.Join(c.Tmp, fmt.Sprintf("run%d", pi))
 		writeProject(dir, p)
 		fields := commentFields(p)
 		env := baseEnv(home)
+		plat := "env-platform=inherit"
+		if len(p.Foreign) > 0 && r.Chance(2, 3) {
+			// mage itself is started with another platform in its environment: what it builds and lists must not change
+			kv := []string{"GOOS=plan9", "GOOS=windows", "GOARCH=386"}[r.Intn(3)]
+			env = append(env, kv)
+			plat = "env-platform=" + kv
+		}
 		// compile once, statically
 		static := filepath.Join(dir, "static.bin")
 		cr := runCmd(dir, env, mageBin, "-compile", static)
@@ -302,7 +309,7 @@ func ferun(c *Ctx) {
 			calls := parseCalls(rr.stdout)
 			impl := J{"calls": calls, "status": rr.status, "stop": classifyStop(rr), "listed": strings.Contains(rr.stdout, "Targets:")}
 			in := J{"op": "fe.run", "project": p, "fields": fields, "words": words, "conv": convRecord(words), "fail": fail, "ignoreDefault": ignoreDefault}
-			c.Emit(in, impl, "way="+way, fmt.Sprintf("targets=%d", nt), "stop="+fmt.Sprint(impl["stop"]))
+			c.Emit(in, impl, "way="+way, fmt.Sprintf("targets=%d", nt), "stop="+fmt.Sprint(impl["stop"]), plat, fmt.Sprintf("foreign-files=%v", len(p.Foreign) > 0))
 		}
 		os.RemoveAll(dir)
 	}
